@@ -69,6 +69,7 @@ type runState struct {
 	names    map[string]int
 	obs      []observation
 	mapOrder bool
+	mapOrderMax int
 	tmCivil  map[string][2]int64 // day term -> (year, month) decided on this path
 	assumeN  int
 	tryDepth int
